@@ -572,10 +572,13 @@ class Statechart:
                            statechart_copy.parent_for(new_name))
 
         # Copy transitions
-        transitions = set()
+        # (transitions that compare equal are distinct transitions: each registered one is copied once)
+        transitions = []  # type: List[Transition]
         for name in [source_name] + statechart_copy.descendants_for(source_name):
-            transitions.update(statechart_copy.transitions_from(name))
-            transitions.update(statechart_copy.transitions_to(name))
+            for transition in (statechart_copy.transitions_from(name)
+                               + statechart_copy.transitions_to(name)):
+                if not any(transition is t for t in transitions):
+                    transitions.append(transition)
         for transition in transitions:
             try:
                 self.add_transition(transition)
